@@ -87,10 +87,34 @@ def real_optimize(prog):
         return prog.optimize()
 
 
-def corr_optimizer(ctx, spec, batch):
+OP_CACHE = {}       # operation instances shared within and across programs (half of the specs)
+
+
+def linked_copy_contract(prog, opt):
+    """documented behaviour of Program._linked_copy / Program.optimize: the copy shares the RegRefs and the free
+    parameters with the original, both are locked, the copy links to its source, other attributes are copies"""
+    bad = []
+    if set(opt.reg_refs) != set(prog.reg_refs) or any(opt.reg_refs[k] is not prog.reg_refs[k] for k in prog.reg_refs):
+        bad.append("RegRefs are not shared")
+    if [(r.ind, r.active) for r in opt.register] != [(r.ind, r.active) for r in prog.register]:
+        bad.append("register differs")
+    if not (prog.locked and opt.locked):
+        bad.append("original / copy not locked")
+    if opt.source is not (prog.source if prog.source is not None else prog):
+        bad.append("source link wrong")
+    if set(opt.free_params) != set(prog.free_params) or any(opt.free_params[k] is not prog.free_params[k] for k in prog.free_params):
+        bad.append("free parameters not shared")
+    if opt.circuit is prog.circuit:
+        bad.append("circuit list object is shared")
+    if opt.name != prog.name or opt.num_subsystems != prog.num_subsystems or opt.init_num_subsystems != prog.init_num_subsystems:
+        bad.append("name / subsystem counts differ")
+    return bad
+
+
+def corr_optimizer(ctx, spec, batch, shared_ops=False):
     """run Program.optimize() on the spec, queue the model requests; returns the optimised program"""
     l = og.spec_to_cmds(spec)
-    prog, cmds = og.build(spec)
+    prog, cmds = og.build(spec, op_cache=OP_CACHE if shared_ops else None)
     names = og.free_names(spec)
     before = snapshot(prog)
     ctx.oracle_cases += 1
@@ -98,32 +122,65 @@ def corr_optimizer(ctx, spec, batch):
         opt = real_optimize(prog)
     except Exception as e:
         ctx.fail(f"optimize-raises:{type(e).__name__}", f"Program.optimize() raised {type(e).__name__}: {str(e)[:200]}",
-                 dict(kind="purity", spec=spec, how="optimize"))
+                 dict(kind="purity", spec=spec, how="optimize", shared=shared_ops))
         return prog, None
-    after = snapshot(prog)
-    if before != after:
-        ctx.fail("optimize-mutates-original", "Program.optimize() modified the original program or its operation objects",
-                 dict(kind="purity", spec=spec, how="optimize"))
-    shared = [c for c in opt.circuit if any(c.op is d.op for d in cmds)]
-    ctx.tally("shared_op_objects", len(shared))
-    if l is None:
-        ctx.tally("corr_skipped_outside_fragment")
-        return prog, opt
-    ident = {id(c): i for i, c in enumerate(cmds)}
-    B = len(cmds)
     try:
-        out = [canon_cmd(c, ident.get(id(c), -1), names) for c in opt.circuit]
-    except ValueError as e:
-        # the input is inside the model's parameter fragment, so the model predicts an output inside it
-        ctx.disagree("K1.optGrid vs optimize_circuit (output parameter outside the modelled fragment)", spec,
-                     "parameters of the form number or k*symbol", str(e))
-        return prog, opt
-    # an original Command object must be carried over untouched
-    for c in out:
-        if c["id"] >= 0 and c != l[c["id"]]:
-            ctx.fail("optimize-edits-command", f"command {c['id']} of the original circuit appears altered in the output",
-                     dict(kind="purity", spec=spec, how="optimize"))
-    batch.append(dict(spec=spec, l=l, out=out, B=B))
+        after = snapshot(prog)
+        if before != after:
+            ctx.fail("optimize-mutates-original", "Program.optimize() modified the original program or its operation objects",
+                     dict(kind="purity", spec=spec, how="optimize", shared=shared_ops))
+        for why in linked_copy_contract(prog, opt):
+            ctx.fail("linked-copy:" + why, f"Program.optimize(): {why}", dict(kind="purity", spec=spec, how="optimize", shared=shared_ops))
+        # parameter lists of newly created operations must not alias those of any original operation or of each other
+        orig_ops = {id(c.op) for c in cmds}
+        plists = {id(c.op.p): c for c in cmds}
+        seen = {}
+        for c in opt.circuit:
+            if id(c.op) in orig_ops:
+                continue
+            if id(c.op.p) in plists or (id(c.op.p) in seen and seen[id(c.op.p)] is not c.op):
+                ctx.fail("merged-op-aliases-parameter-list", f"the parameter list of the new operation {c.op} is shared with another operation",
+                         dict(kind="purity", spec=spec, how="optimize", shared=shared_ops))
+            seen[id(c.op.p)] = c.op
+        shared = [c for c in opt.circuit if id(c.op) in orig_ops]
+        ctx.tally("shared_op_objects", len(shared))
+        if l is None:
+            ctx.tally("corr_skipped_outside_fragment")
+            return prog, opt
+        ident = {id(c): i for i, c in enumerate(cmds)}
+        B = len(cmds)
+        try:
+            out = [canon_cmd(c, ident.get(id(c), -1), names) for c in opt.circuit]
+        except ValueError as e:
+            # the input is inside the model's parameter fragment, so the model predicts an output inside it
+            ctx.disagree("K1.optGrid vs optimize_circuit (output parameter outside the modelled fragment)", spec,
+                         "parameters of the form number or k*symbol", str(e))
+            return prog, opt
+        # an original Command object must be carried over untouched
+        for c in out:
+            if c["id"] >= 0 and c != l[c["id"]]:
+                ctx.fail("optimize-edits-command", f"command {c['id']} of the original circuit appears altered in the output",
+                         dict(kind="purity", spec=spec, how="optimize", shared=shared_ops))
+        # history independence: a second optimize() of the same program, and optimize() of the optimised
+        # program (the loop reaches a fixpoint), give the same rows
+        view = lambda circ: {w: [og.strip_id(c) for c in r] for w, r in
+                             rows_of([canon_cmd(c, 0, names) for c in circ]).items()}
+        first = view(opt.circuit)
+        again = view(real_optimize(prog).circuit)
+        if again != first:
+            ctx.fail("optimize-twice-differs", "a second Program.optimize() of the same program returned a different circuit",
+                     dict(kind="purity", spec=spec, how="optimize", shared=shared_ops))
+        fix = view(real_optimize(opt).circuit)
+        if fix != first:
+            ctx.fail("optimize-not-idempotent", "optimising the optimised program changed it again (or changed the first result)",
+                     dict(kind="purity", spec=spec, how="optimize", shared=shared_ops))
+        if snapshot(prog) != before:
+            ctx.fail("optimize-mutates-original", "a later optimize() call modified the original program",
+                     dict(kind="purity", spec=spec, how="optimize", shared=shared_ops))
+        batch.append(dict(spec=spec, l=l, out=out, B=B))
+    except Exception as e:
+        ctx.fail(f"optimize-output-unusable:{type(e).__name__}", f"inspecting the result of optimize() raised {type(e).__name__}: {str(e)[:200]}",
+                 dict(kind="purity", spec=spec, how="optimize", shared=shared_ops))
     return prog, opt
 
 
@@ -264,6 +321,34 @@ def corr_merge(ctx, rng, count):
         impl.append((a, b, res))
     if not ctx.proof_ok:
         return
+    # the loop body (`tryMerge`) on the same pairs: a two-command circuit through the real optimiser must come out
+    # with 2 commands (advance), 0 (identity) or 1 (merged, same operation as `merge` returned)
+    treqs, timpl = [], []
+    for a, b, res in impl:
+        spec = dict(n=2, ops=[a, b])
+        try:
+            prog, cmds = og.build(spec)
+            out = real_optimize(prog).circuit
+            if len(out) == 2:
+                got = "advance"
+            elif len(out) == 0:
+                got = "identity"
+            else:
+                got = dict(merged=og.strip_id(og.real_op_to_cmd(out[0].op, [r.ind for r in out[0].reg], 0, [])))
+        except Exception as e:
+            ctx.fail(f"optimize-raises:{type(e).__name__}", f"optimize() of [{a['cls']}, {b['cls']}] raised {type(e).__name__}: {str(e)[:160]}",
+                     dict(kind="purity", spec=spec, how="optimize"))
+            continue
+        treqs.append(dict(op="opt.try", a=og.op_to_cmd(a, 0, []), b=og.op_to_cmd(b, 1, []), B=2))
+        timpl.append((a, b, got))
+    for (a, b, got), model in zip(timpl, ctx.lean(treqs)):
+        ctx.corr_cases += 1
+        if isinstance(model, dict) and "merged" in model:
+            model = dict(merged=og.strip_id(model["merged"]))
+            if isinstance(got, dict) and og.cmd_close(model["merged"], got["merged"]):
+                continue
+        if model != got:
+            ctx.disagree("K1.tryMerge vs optimize_circuit on a two-command circuit", dict(a=a, b=b), model, got)
     for (a, b, res), model in zip(impl, ctx.lean(reqs)):
         ctx.corr_cases += 1
         if isinstance(model, dict) and "merged" in model:
@@ -318,22 +403,31 @@ def equivalent(sf, backend, p1, p2, args, cutoff=10):
         return None if d <= tol * scale else f"states differ by {d:.3e} (scale {scale:.2f})"
     if d <= slack + 1e-7:
         return None
-    s1, s2 = run_state(sf, p1, backend, cutoff + 6, args), run_state(sf, p2, backend, cutoff + 6, args)
-    d2, _, _ = state_diff(backend, s1, s2)
-    if d2 > max(1e-6, d / 2):
-        return f"density matrices differ by {d:.3e} at cutoff {cutoff}, {d2:.3e} at cutoff {cutoff + 6}"
-    return None
+    # truncation escalation (DESIGN 1.6), repeated: a discrepancy is a violation only if it does not die with
+    # the truncation error; slowly converging states (cubic phase gate: polynomial tails) need more than one step
+    n = len(p1.register)
+    steps = [cutoff + 6, cutoff + 14, cutoff + 22] if n <= 1 else [cutoff + 6, cutoff + 12]
+    hist = [(cutoff, d)]
+    for D in steps:
+        s1, s2 = run_state(sf, p1, backend, D, args), run_state(sf, p2, backend, D, args)
+        dk, _, _ = state_diff(backend, s1, s2)
+        hist.append((D, dk))
+        if dk <= max(1e-6, d / 2):
+            return None
+    return "density matrices differ by " + ", ".join(f"{x:.3e} at cutoff {D}" for D, x in hist)
 
 
 def spec_args(spec):
     return {"x": X_VALUE} if og.free_names(spec) else {}
 
 
-def oracle_program(ctx, sf, spec, backend, prog=None, opt=None, compiled=True):
-    """original vs optimize(); compile(optimize=False) vs compile(optimize=True)"""
+def oracle_program(ctx, sf, spec, backend, prog=None, opt=None, compiled=True, shared_ops=False, rerun=False):
+    """original vs optimize(); compile(optimize=False) vs compile(optimize=True); with `rerun` also the original
+    after optimisation vs a freshly built equal program"""
     if prog is None:
-        prog, _ = og.build(spec)
+        prog, _ = og.build(spec, op_cache=OP_CACHE if shared_ops else None)
         opt = real_optimize(prog)
+    fresh = og.build(spec)[0] if rerun else None
     args = spec_args(spec)
     changed = len(opt.circuit) != len(prog.circuit)
     ctx.count(f"oracle:{backend}:{'changed' if changed else 'unchanged'}", ["oracle", backend, spec],
@@ -351,7 +445,18 @@ def oracle_program(ctx, sf, spec, backend, prog=None, opt=None, compiled=True):
         why = f"optimised program raises {type(e).__name__}: {e}"
     if why:
         ctx.fail(f"optimize-changes-state:{backend}", f"optimize(): {why}; optimised circuit {[str(c) for c in opt.circuit]}",
-                 dict(kind="program", spec=spec, backend=backend, how="optimize"))
+                 dict(kind="program", spec=spec, backend=backend, how="optimize", shared=shared_ops))
+    if fresh is not None:
+        # the original, executed after it was optimised (and after the optimised copy was executed), against a
+        # freshly built equal program that never saw the optimiser
+        ctx.oracle_cases += 1
+        try:
+            why = equivalent(sf, backend, fresh, prog, args)
+        except Exception as e:
+            why = f"{type(e).__name__}: {e}"
+        if why:
+            ctx.fail(f"original-changed-by-optimize:{backend}", f"the original program computes something else after optimize(): {why}",
+                     dict(kind="program", spec=spec, backend=backend, how="optimize", shared=shared_ops))
     if not compiled:
         return
     try:
@@ -374,7 +479,16 @@ def oracle_program(ctx, sf, spec, backend, prog=None, opt=None, compiled=True):
         why = f"compile(optimize=True) result raises {type(e).__name__}: {e}"
     if why:
         ctx.fail(f"compile-optimize-changes-state:{backend}", f"compile(optimize=True) vs compile(optimize=False): {why}",
-                 dict(kind="program", spec=spec, backend=backend, how="compile"))
+                 dict(kind="program", spec=spec, backend=backend, how="compile", shared=shared_ops))
+    if fresh is not None:
+        ctx.oracle_cases += 1
+        try:
+            why = equivalent(sf, backend, fresh, prog, args)
+        except Exception as e:
+            why = f"{type(e).__name__}: {e}"
+        if why:
+            ctx.fail(f"original-changed-by-compile:{backend}", f"the original program computes something else after compile(optimize=True): {why}",
+                     dict(kind="program", spec=spec, backend=backend, how="compile", shared=shared_ops))
 
 
 # ---- merge law of every family, executed
@@ -503,16 +617,21 @@ def corpus_specs():
     return out
 
 
-def run_spec(ctx, sf, spec, batch, backend=None, compiled=True):
-    prog, opt = corr_optimizer(ctx, spec, batch)
+def run_spec(ctx, sf, spec, batch, backend=None, compiled=True, shared_ops=False, rerun=False):
+    prog, opt = corr_optimizer(ctx, spec, batch, shared_ops)
     if opt is None:
         return
     changed = len(opt.circuit) != len(prog.circuit)
-    ctx.count("corr:" + ("changed" if changed else "unchanged"), ["spec", spec],
-              changed and len({w for o in spec["ops"] for w in o["regs"]}) >= 2)
+    holes = any(o["cls"] in ("Del", "New") for o in spec["ops"])
+    ctx.count("corr:" + ("changed" if changed else "unchanged") + (":holes" if holes else "") + (":shared" if shared_ops else ""),
+              ["spec", spec], changed and len({w for o in spec["ops"] for w in o["regs"]}) >= 2)
     ctx.tally("removed_commands", len(prog.circuit) - len(opt.circuit))
     if backend:
-        oracle_program(ctx, sf, spec, backend, prog, opt, compiled)
+        try:
+            oracle_program(ctx, sf, spec, backend, prog, opt, compiled, shared_ops, rerun)
+        except Exception as e:
+            ctx.fail(f"oracle-raises:{type(e).__name__}", f"executing the programs raised {type(e).__name__}: {str(e)[:200]}",
+                     dict(kind="program", spec=spec, backend=backend, how="optimize", shared=shared_ops))
 
 
 def run(ctx, sf):
@@ -523,7 +642,7 @@ def run(ctx, sf):
         if item.get("kind") == "law":
             oracle_law(ctx, sf, item["a"], item["b"])
         else:
-            run_spec(ctx, sf, item["spec"], batch, item.get("backend"), True)
+            run_spec(ctx, sf, item["spec"], batch, item.get("backend"), True, shared_ops=True, rerun=True)
     flush_optimizer(ctx, batch)
     # merge rules: correspondence + executed law
     corr_merge(ctx, rng, ctx.n(500, 12000))
@@ -534,19 +653,25 @@ def run(ctx, sf):
     for _ in range(ctx.n(700, 20000)):
         spec = og.gen_spec(rng, rng.randint(1, nmax), rng.randint(2, 16), flavour="any", p_sym=0.25, p_measured=0.3,
                            matrices=True)
-        run_spec(ctx, sf, spec, batch)
+        if rng.random() < 0.25:
+            spec = og.with_holes(rng, spec)
+        run_spec(ctx, sf, spec, batch, shared_ops=rng.random() < 0.5)
         if len(batch) >= 1500:
             flush_optimizer(ctx, batch)
     # optimiser: correspondence + execution on the gaussian backend
     for _ in range(ctx.n(400, 9000)):
         spec = og.gen_spec(rng, rng.randint(1, 4), rng.randint(2, 12), flavour="gaussian", p_sym=0.15, p_measured=0.25,
                            matrices=True, allow_complex=True)
-        run_spec(ctx, sf, spec, batch, "gaussian", compiled=rng.random() < 0.6)
+        if rng.random() < 0.3:
+            spec = og.with_holes(rng, spec)
+        run_spec(ctx, sf, spec, batch, "gaussian", compiled=rng.random() < 0.6, shared_ops=rng.random() < 0.5,
+                 rerun=rng.random() < 0.35)
     flush_optimizer(ctx, batch)
     # ... and on the fock backend (non-Gaussian families, small parameters, cutoff 10 / 16)
     for _ in range(ctx.n(60, 1500)):
         spec = og.gen_spec(rng, rng.randint(1, 2), rng.randint(2, 8), flavour="fock", p_sym=0.1, near=False)
-        run_spec(ctx, sf, spec, batch, "fock", compiled=rng.random() < 0.4)
+        run_spec(ctx, sf, spec, batch, "fock", compiled=rng.random() < 0.4, shared_ops=rng.random() < 0.5,
+                 rerun=rng.random() < 0.25)
     flush_optimizer(ctx, batch)
     if ctx.tier == "thorough":
         exhaustive(ctx, sf, batch)
@@ -586,9 +711,9 @@ def replay(ctx, rp):
         return mutated
     elif rp["kind"] == "purity":
         batch = []
-        prog, opt = corr_optimizer(ctx, rp["spec"], batch)
+        prog, opt = corr_optimizer(ctx, rp["spec"], batch, rp.get("shared", False))
         if rp.get("how") == "compile" and opt is not None:
-            oracle_program(ctx, sf, rp["spec"], rp["backend"], prog, opt, True)
+            oracle_program(ctx, sf, rp["spec"], rp["backend"], prog, opt, True, rp.get("shared", False), True)
     else:
-        oracle_program(ctx, sf, rp["spec"], rp["backend"], None, None, True)
+        oracle_program(ctx, sf, rp["spec"], rp["backend"], None, None, True, rp.get("shared", False), True)
     return len(ctx.failures) > n0
